@@ -224,7 +224,13 @@ fn case_body(rng: &mut Rng, pool: crate::sys::Pool, pool_size: usize, rep: &mut 
                 std::thread::scope(|s| {
                     s.spawn(|| {
                         wait_until(Instant::now() + Duration::from_secs(8), || about.load(SeqCst));
-                        std::thread::sleep(Duration::from_micros(300 + (target as u64 % 7) * 200));
+                        // now and then the system stays parked for most of a second while the
+                        // caller is blocked (an accessor that waits must wait that long)
+                        if case_no % 97 == 5 {
+                            std::thread::sleep(Duration::from_millis(700));
+                        } else {
+                            std::thread::sleep(Duration::from_micros(300 + (target as u64 % 7) * 200));
+                        }
                         latch.open.store(true, SeqCst);
                     });
                     about.store(true, SeqCst);
